@@ -13,13 +13,13 @@ Definition top_id (fs : list frame) : option nat :=
   match fs with [] => None | f :: _ => Some (frame_id f) end.
 
 Definition frame_lo (f : frame) : nat :=
-  match f with FBin _ _ _ l => lo l | FPre i _ _ => i | FGroup i _ => i end.
+  match f with FBin _ _ _ l => lo l | FPre i _ _ => i | FGroup _ i _ => i end.
 
 Definition frame_wf (f : frame) : Prop :=
-  match f with FBin i _ _ l => ordered l /\ hi l < i | FPre _ _ _ => True | FGroup _ _ => True end.
+  match f with FBin i _ _ l => ordered l /\ hi l < i | FPre _ _ _ => True | FGroup _ _ _ => True end.
 
 Definition frame_has (f : frame) (j : nat) : Prop :=
-  match f with FBin i _ _ l => j = i \/ has_id l j | FPre i _ _ => j = i | FGroup i _ => j = i end.
+  match f with FBin i _ _ l => j = i \/ has_id l j | FPre i _ _ => j = i | FGroup _ i _ => j = i end.
 
 Fixpoint frames_have (fs : list frame) (j : nat) : Prop :=
   match fs with [] => False | f :: r => frame_has f j \/ frames_have r j end.
@@ -43,8 +43,8 @@ Definition frame_node (ns : list pnode) (f : frame) (p : option nat) (c : nat) :
   | FPre i d k =>
     exists n, nth_error ns i = Some n /\ n_sec n = S_UnaryPrefix /\ n_def n = d /\ n_parent n = p /\
               n_left n = None /\ n_right n = Some c /\ n_tok n = Some k
-  | FGroup i k =>
-    exists n, nth_error ns i = Some n /\ n_sec n = S_StartGrouping /\ n_def n = D_Group /\ n_parent n = p /\
+  | FGroup b i k =>
+    exists n, nth_error ns i = Some n /\ n_sec n = S_StartGrouping /\ n_def n = bdef b /\ n_parent n = p /\
               n_left n = None /\ n_right n = Some c /\ n_tok n = Some k
   end.
 
@@ -56,11 +56,11 @@ Fixpoint spine (ns : list pnode) (fs : list frame) (c : nat) : Prop :=
 
 (* ---- shape facts ---- *)
 Lemma frame_lo_le f : frame_wf f -> frame_lo f <= frame_id f.
-Proof. destruct f as [i d k l|i d k|i k]; simpl; [|lia|lia]. intros [O H]. pose proof (ordered_lo_hi l O) as B. lia. Qed.
+Proof. destruct f as [i d k l|i d k|b i k]; simpl; [|lia|lia]. intros [O H]. pose proof (ordered_lo_hi l O) as B. lia. Qed.
 
 Lemma frame_has_range f j : frame_wf f -> frame_has f j -> frame_lo f <= j <= frame_id f.
 Proof.
-  destruct f as [i d k l|i d k|i k]; simpl; [|lia|lia]. intros [O H] [->|Hj].
+  destruct f as [i d k l|i d k|b i k]; simpl; [|lia|lia]. intros [O H] [->|Hj].
   - pose proof (ordered_lo_hi l O) as B. lia.
   - pose proof (ordered_range l j O Hj) as B. lia.
 Qed.
@@ -83,15 +83,15 @@ Lemma plug_hi f t : hi (plug f t) = hi t.
 Proof. destruct f; reflexivity. Qed.
 
 Lemma plug_ordered f t : frame_wf f -> frame_id f < lo t -> ordered t -> ordered (plug f t).
-Proof. destruct f as [i d k l|i d k|i k]; simpl; intros W L O; [destruct W; auto|auto|auto]. Qed.
+Proof. destruct f as [i d k l|i d k|b i k]; simpl; intros W L O; [destruct W; auto|auto|auto]. Qed.
 
 Lemma plug_has f t j : has_id (plug f t) j <-> frame_has f j \/ has_id t j.
-Proof. destruct f as [i d k l|i d k|i k]; simpl; tauto. Qed.
+Proof. destruct f as [i d k l|i d k|b i k]; simpl; tauto. Qed.
 
 Lemma plug_denotes ns f p t :
   frame_node ns f p (nid t) -> denotes ns (Some (frame_id f)) t -> denotes ns p (plug f t).
 Proof.
-  destruct f as [i d k l|i d k|i k]; simpl.
+  destruct f as [i d k l|i d k|b i k]; simpl.
   - intros (n & H1 & H2 & H3 & H4 & H5 & H6) D. exists n. repeat split; auto; apply H2.
   - intros (n & H1 & H2 & H3 & H4 & H5 & H6 & H7) D. exists n. repeat split; auto.
   - intros (n & H1 & H2 & H3 & H4 & H5 & H6 & H7) D. exists n. repeat split; auto.
@@ -128,7 +128,7 @@ Lemma frame_node_ext ns ns' f p c :
   (forall j, frame_has f j -> nth_error ns' j = nth_error ns j) ->
   frame_node ns f p c -> frame_node ns' f p c.
 Proof.
-  destruct f as [i d k l|i d k|i k]; simpl; intros E.
+  destruct f as [i d k l|i d k|b i k]; simpl; intros E.
   - intros (n & H1 & H2 & H3 & H4 & H5 & H6). exists n. rewrite E by auto. repeat split; auto; try apply H2.
     eapply denotes_ext; [|exact H6]. intros j Hj. apply E. auto.
   - intros (n & H). exists n. rewrite E by auto. exact H.
@@ -229,7 +229,7 @@ Definition walk_stop (my their : N) (rtl : bool) : bool := N.ltb my their || (N.
 Fixpoint first_group (fs : list frame) : option nat :=
   match fs with
   | [] => None
-  | FGroup i _ :: _ => Some i
+  | FGroup _ i _ :: _ => Some i
   | _ :: r => first_group r
   end.
 
@@ -259,7 +259,7 @@ Lemma frame_node_walk ns f p c :
   exists n, nth_error ns (frame_id f) = Some n /\ n_def n = frame_def f /\ n_parent n = p /\
             n_right n = Some c /\ secondary_eqb (n_sec n) S_UnarySuffix = false.
 Proof.
-  destruct f as [i d k l|i d k|i k]; simpl.
+  destruct f as [i d k l|i d k|b i k]; simpl.
   - intros (n & H1 & [H2 H2'] & H3 & H4 & H5 & H6). exists n. repeat split; auto.
     destruct H2' as [(B & _)|(B & _)]; [destruct (n_sec n); try discriminate; reflexivity|rewrite B; reflexivity].
   - intros (n & H1 & H2 & H3 & H4 & H5 & H6 & H7). exists n. repeat split; auto. rewrite H2. reflexivity.
@@ -279,10 +279,10 @@ Proof.
     destruct (frame_node_walk _ _ _ _ S1) as (n & Hn & Hd & Hp & Hr & Hs).
     destruct (is_fgroup f) eqn:Eg.
     + (* the innermost open bracket: the walk stops here whatever the operator *)
-      destruct f as [i d0 k l|i d0 k|i k]; try discriminate Eg.
+      destruct f as [i d0 k l|i d0 k|b i k]; try discriminate Eg.
       cbn [stays_below] in Hpop. injection Hpop as <- <-.
       cbn [walk top_id first_group frame_id]. cbn [frame_id] in Hn. rewrite Hn. unfold prio_of. rewrite Hd.
-      cbn [frame_def priority bind is_group_like]. rewrite Nat.eqb_refl. cbn [andb]. rewrite orb_true_r. reflexivity.
+      destruct b; cbn [frame_def bdef priority bind is_group_like]; rewrite Nat.eqb_refl; cbn [andb]; rewrite orb_true_r; reflexivity.
     + destruct (C f (or_introl eq_refl) Eg) as (their & Hth & Hcmp & Hgl).
       assert (Hfg : first_group (f :: r) = first_group r) by (destruct f; try reflexivity; discriminate Eg).
       rewrite Hfg.
@@ -337,7 +337,7 @@ Definition closed_operand (t : ntree) : Prop :=
   match t with
   | NAtom _ _ _ => True
   | NSuf _ d _ _ => (exists their, priority d = Some their) /\ plain_def d = true
-  | NGroup _ _ _ => True
+  | NGroup _ _ _ _ => True
   | _ => False
   end.
 
@@ -349,7 +349,7 @@ Lemma walk_operand ns id my rtl ug t p fuel :
   = walk fuel ns id my false rtl ug p (Some (nid t)) 1.
 Proof.
   intros D Cl O Hid Hstop Hstop20 Hug.
-  destruct t as [i d k|i d k a|i d k a|i d k l r|i k a]; simpl in Cl; try contradiction;
+  destruct t as [i d k|i d k a|i d k a|i d k l r|b i k a]; simpl in Cl; try contradiction;
     simpl in D; destruct D as (n & Hn & A); pose proof (nth_error_lt _ _ _ Hn) as Hlen;
     cbn [walk nid]; rewrite Hn; unfold prio_of.
   - destruct A as (A1 & A2 & A3 & A4 & A5 & A6 & A7). rewrite A3. cbn [bind].
@@ -361,7 +361,9 @@ Proof.
     rewrite A1, (plain_not_group _ Hpl). cbn [secondary_eqb secondary_index N.eqb Pos.eqb andb negb orb].
     rewrite A5, A3. cbn [opt_nat_eqb].
     destruct (Nat.ltb_spec (length ns) 1); [lia|]. reflexivity.
-  - destruct A as (A1 & A2 & A3 & A4 & A5 & A6 & A7). rewrite A2. cbn [priority bind is_group_like].
+  - destruct A as (A1 & A2 & A3 & A4 & A5 & A6 & A7). rewrite A2.
+    assert (Hb : priority (bdef b) = Some 20%N /\ is_group_like (bdef b) = true) by (destruct b; split; reflexivity).
+    destruct Hb as [Hb1 Hb2]. rewrite Hb1, Hb2. cbn [bind].
     rewrite A1. cbn [secondary_eqb secondary_index N.eqb Pos.eqb andb negb].
     fold (walk_stop my 20 rtl). rewrite Hstop20. cbn [orb].
     assert (Hg : match ug with Some g => g =? i | None => false end = false).
@@ -380,7 +382,7 @@ Lemma denotes_reparent ns ns' p q t n :
   denotes ns' q t.
 Proof.
   intros O D Hn Hnew E. revert D.
-  destruct t as [i d k|i d k a|i d k a|i d k l r|i k a]; simpl in *; intros (n0 & Hn0 & A);
+  destruct t as [i d k|i d k a|i d k a|i d k l r|b i k a]; simpl in *; intros (n0 & Hn0 & A);
     rewrite Hn in Hn0; injection Hn0 as <-; exists (set_parent q n); (split; [exact Hnew|]).
   - unfold atom_node in *. simpl. tauto.
   - destruct A as (A1 & A2 & A3 & A4 & A5 & A6 & A7). simpl. repeat split; auto.
@@ -464,7 +466,7 @@ Proof.
     + (* the frames *)
       simpl. split.
       * clear -S1 Hnf Hf3 Hother F2 B' F1.
-        destruct f as [i d0 k l|i d0 k|i k]; simpl in *.
+        destruct f as [i d0 k l|i d0 k|b i k]; simpl in *.
         -- destruct S1 as (n & H1 & H2 & H3 & H4 & H5 & H6). rewrite Hnf in H1. injection H1 as <-.
            exists (set_right (Some (length ns)) nf). split; [exact Hf3|]. simpl. repeat split; auto; try apply H2.
            eapply denotes_ext; [|exact H6]. intros j Hj. destruct F2 as [O2 H2'].
